@@ -323,4 +323,44 @@ L_MEMORY = {
     "unmapped": [],
 }
 
-LAYOUTS = {l["name"]: l for l in (L_MEMWORD, L_FIELDS, L_ARRAY, L_NESTED, L_RANGE, L_MEMORY)}
+# ----------------------------------------------------------------------------------------------------------
+# L7  Interconnect: master port (addr_width=5) -> Interconnect -> one register-map slave reserved at 0x10 (16 bytes)
+#     with two MemWords; every other address is answered by the interconnect's background slave.
+#     The register-map slave drops awready and wready independently (whichever half arrived), so the interconnect has
+#     to route the two ready signals separately.
+# ----------------------------------------------------------------------------------------------------------
+SRC_ICON = HEADER + '''from cohdl.std.axi.axi4_light.interconnect import Interconnect
+
+
+class Map(reg32.AddrMap):
+    w0: reg32.MemWord[0x0]
+    w1: reg32.MemWord[0x4]
+
+    def _config_(self, e):
+        self._e = e
+
+    def _impl_concurrent_(self):
+        self._e.o_w0 <<= self.w0.raw
+        self._e.o_w1 <<= self.w1.raw
+
+
+class T(axi.base_entity(addr_width=5)):
+    o_w0 = Port.output(BitVector[32])
+    o_w1 = Port.output(BitVector[32])
+
+    def architecture(self):
+        master = self.interface_connection()
+        ic = Interconnect(master)
+        slv = ic.reserve(0x10, 16)
+        slv.connect_addr_map(Map(self))
+'''
+
+L_ICON = {
+    "name": "icon",
+    "source": SRC_ICON,
+    "regs": [_word("w0", 0x10, "MemWord", "o_w0"), _word("w1", 0x14, "MemWord", "o_w1")],
+    "hw": [],
+    "unmapped": [0x0, 0x4, 0x8, 0xC, 0x18, 0x1C],
+}
+
+LAYOUTS = {l["name"]: l for l in (L_MEMWORD, L_FIELDS, L_ARRAY, L_NESTED, L_RANGE, L_MEMORY, L_ICON)}
